@@ -10,7 +10,7 @@ PROPERTY = "C17"
 CLAUSES = ["C17.noraise", "C17.guard", "C17.newack", "C17.fr", "C17.inflate", "C17.deflate", "C17.timeout", "C17.floor", "C17.rto"]
 RULE = ("every history of <= D network events at a real TCPPacketGenerator whose output is a tap: new ACK advancing 1|2|3 "
         "segments (bounded by what is outstanding) with RTT sample 0.5|1|3, duplicate ACK, clock +0.5, advance to the next "
-        "retransmission-timer expiry; TCPReno from (cwnd, ssthresh) in {(512,65535),(1024,1024),(2048,1024),(1536,1100)} and "
+        "retransmission-timer expiry; TCPReno from (cwnd, ssthresh) in {(512,65535),(1024,1024),(2048,1024),(1536,1100),(300 MSS,400 MSS)} and "
         "TCPCubic from its defaults and after a loss; the kernel is run to quiescence at the instant of every event; "
         "non-trivial = the history contains a third duplicate ACK, a timer expiry, or congestion avoidance; distinct = distinct "
         "(start state, history, window trajectory)")
@@ -31,6 +31,8 @@ def plan(tier, seed):
     cfgs = []
     for (cw, ss) in ((512, 65535), (1024, 1024), (2048, 1024), (1536, 1100)):
         cfgs.append(dict(cc="reno", cwnd=cw, ssthresh=ss, depth=d))
+    # a window of 300 segments (constants that only bite above 64 KiB); every execution handles 300 timers, so a shallower history
+    cfgs.append(dict(cc="reno", cwnd=300 * 512, ssthresh=400 * 512, depth=d - 2))
     cfgs.append(dict(cc="cubic", depth=d))
     cfgs.append(dict(cc="cubic", depth=d, pre=["dup", "dup", "dup", ("new", 1, 1), ("new", 1, 1)]))
     cfgs.append(dict(cc="reno", cwnd=4096, ssthresh=1024, depth=d, pre=["dup", "dup", "dup"]))
